@@ -18,6 +18,7 @@ package window
 
 import (
 	"context"
+	"github.com/rulego/streamsql/utils/verifhook"
 	"sync"
 	"time"
 )
@@ -138,6 +139,7 @@ func (wm *Watermark) update() {
 // send is skipped and lastSentWatermark stays stale, so the next tick retries.
 func (wm *Watermark) sendWatermarkLocked() {
 	if wm.currentWatermark.After(wm.lastSentWatermark) {
+		verifhook.Yield("watermark.send")
 		select {
 		case wm.watermarkChan <- wm.currentWatermark:
 			wm.lastSentWatermark = wm.currentWatermark
